@@ -61,8 +61,10 @@ type World struct {
 	nanos     int
 	out       *bufio.Writer
 	gaugeBase float64
-	// events as executed (for replay files)
-	Log []string
+	// events as executed (for replay files); RLog is the replayable form (clock-derived ping ids as @k references)
+	Log  []string
+	RLog []string
+	rnext string
 	// knowledge for the generator, learned from deliveries only
 	know *Knowledge
 }
@@ -157,6 +159,12 @@ func (w *World) finishEvent(outcome string) {
 
 func (w *World) logEvent(line string) {
 	w.Log = append(w.Log, line)
+	if w.rnext != "" {
+		w.RLog = append(w.RLog, w.rnext)
+		w.rnext = ""
+	} else {
+		w.RLog = append(w.RLog, line)
+	}
 	w.emit("E %s", line)
 }
 
@@ -181,6 +189,7 @@ func (w *World) Recv(c int, r *wire.Req) {
 	if r.Kind == "pingResp" && r.PingRef > 0 {
 		// replayable form first, then the resolved literal id
 		w.emit("Q recv %d pingResp @%d", c, r.PingRef)
+		w.rnext = fmt.Sprintf("recv %d pingResp @%d", c, r.PingRef)
 		if ps := w.know.pings[c]; r.PingRef <= len(ps) {
 			r.Rid = ps[r.PingRef-1]
 		} else {
